@@ -5,6 +5,7 @@ import (
 	"bytes"
 	"encoding/json"
 	"fmt"
+	"go/ast"
 	"go/types"
 	"math/rand/v2"
 	"os"
@@ -185,6 +186,31 @@ func resultsChild(args []string) error {
 					}
 				}
 			}
+		}
+	}
+	// cross-package units: a function of ANOTHER package, asked of the package that calls it through a selector
+	// (only for the packages of the loaded module itself)
+	crossSeen := map[string]bool{}
+	for path := range u.LocalPkgPaths() {
+		p := u.Package(path)
+		if p == nil {
+			continue
+		}
+		for _, f := range p.Files() {
+			ast.Inspect(f, func(n ast.Node) bool {
+				if sel, ok := n.(*ast.SelectorExpr); ok {
+					if fn, ok := p.ObjectOf(sel.Sel).(*types.Func); ok && fn.Pkg() != nil && fn.Pkg() != p.Pkg() {
+						if sig, ok := fn.Type().(*types.Signature); ok && sig.Recv() == nil {
+							key := path + "<-" + fn.FullName()
+							if !crossSeen[key] {
+								crossSeen[key] = true
+								units = append(units, unit{p, fn})
+							}
+						}
+					}
+				}
+				return true
+			})
 		}
 	}
 	fmt.Fprintf(out, "N %d\n", len(units))
